@@ -9,6 +9,7 @@ import (
 	"io/ioutil"
 	"log"
 	"net"
+	"runtime"
 	"sync"
 	"sync/atomic"
 	"time"
@@ -31,6 +32,9 @@ type verifPipelineCase struct {
 	Dgrams  [][]string `json:"dgrams"` // [addr hex, payload hex]
 	Filter  []uint32   `json:"filter"`
 	Mirror  bool       `json:"mirror"`
+	// GOMAXPROCS for the duration of the case (0: unchanged).  With 1, a buffer Put into a sync.Pool by a worker is the very
+	// next buffer the receive loop Gets (no per-P private slot hides it), which makes pool misuse deterministic
+	Procs int `json:"procs"`
 	// enterprise elements to install into ipfix.InfoModel first: [enterprise no, element id, FieldType]
 	ExtElements [][3]uint32 `json:"ext_elements"`
 }
@@ -70,6 +74,9 @@ func verifPipeline(raw []byte) interface{} {
 	}
 	if c.UDPSize < 1 {
 		c.UDPSize = 1500
+	}
+	if c.Procs > 0 {
+		defer runtime.GOMAXPROCS(runtime.GOMAXPROCS(c.Procs))
 	}
 	for _, e := range c.ExtElements {
 		ipfix.InfoModel[ipfix.ElementKey{EnterpriseNo: e[0], ElementID: uint16(e[1])}] =
